@@ -84,7 +84,7 @@ pub fn oracle(sc: &Scenario, obs: &mut Obs) -> CaseResult {
                     }
                 }
             }
-            Ev::KeyUpdate { space: Space::App, generation: g } => {
+            Ev::KeyUpdate { space: Space::App, generation: g, .. } => {
                 let prev = generation.insert(key, *g);
                 rotated_at.insert(key, r.t_us);
                 if let Some(p) = prev {
@@ -184,6 +184,7 @@ pub fn oracle(sc: &Scenario, obs: &mut Obs) -> CaseResult {
         }
     }
     obs.class_if(updates > 0, "key-updated");
+    obs.class_if(out.recs.iter().any(|r| matches!(r.ev, Ev::KeyUpdate { space: Space::App, suite: 1, .. })), "suite:TLS_AES_256_GCM_SHA384");
     obs.class_if(max_gen >= 3, "generation>=3");
     obs.class_if(max_gen >= 10, "generation>=10");
     obs.class_if(f.reordered_rx > 0, "out-of-order-arrival");
@@ -259,6 +260,8 @@ pub fn scenario() -> impl Strategy<Value = Scenario> {
     (gen::scenario(CFG), prop_oneof![Just(2u32), Just(3), Just(5), Just(8), Just(20), 2u32..200], prop::bool::weighted(0.3), tape(false), tape(false), tape(true), tape(true)).prop_map(
         |(mut sc, after, corrupt, up, down, cup, cdown)| {
             sc.key_update_after = Some(after);
+            // every second case runs its key updates on TLS_AES_256_GCM_SHA384 (other key schedule digest, key length)
+            sc.tls_aes256 = sc.seed & 1 == 1;
             if corrupt {
                 sc.net.tape_up = cup;
                 sc.net.tape_down = cdown;
